@@ -8,6 +8,7 @@ import "github.com/youchainhq/go-youchain/common"
 //	revert  : SSTORE(0,1); REVERT(0,0)                           (always fails, state change undone)
 //	log     : mem[0:32]=calldata[0:32]; LOG2(0,32, 0xaa, CALLER)
 //	suicide : SELFDESTRUCT(CALLER)                               (balance goes to the caller; refund)
+//	blockhash: logs BLOCKHASH(NUMBER-d) for d in BlockhashDepths (checked against the canonical chain by the run)
 //	outer   : SSTORE(1,7); r=CALL(gas, inner, 0, 0,0,0,0); SSTORE(2,r); if calldata[0:32]!=0 REVERT
 var (
 	codeStore   = []byte{0x60, 0x20, 0x35, 0x60, 0x00, 0x35, 0x55, 0x00}
@@ -19,6 +20,27 @@ var (
 	// init code that reverts
 	initRevert = []byte{0x60, 0x00, 0x60, 0x00, 0xfd}
 )
+
+// BlockhashDepths are the distances the blockhash contract asks for.
+var BlockhashDepths = []uint64{1, 2, 3, 5, 100, 255, 256, 257}
+
+// BlockhashTopic marks the log of the blockhash contract.
+
+// codeBlockhash: mem[32*i : 32*i+32] = BLOCKHASH(NUMBER - depth_i); LOG1(0, 32*len, 0xbb)
+func codeBlockhash() []byte {
+	var c []byte
+	for i, k := range BlockhashDepths {
+		if k < 256 {
+			c = append(c, 0x60, byte(k))
+		} else {
+			c = append(c, 0x61, byte(k>>8), byte(k))
+		}
+		c = append(c, 0x43, 0x03, 0x40, 0x60, byte(32*i), 0x52) // NUMBER SUB BLOCKHASH PUSH1 off MSTORE
+	}
+	n := 32 * len(BlockhashDepths)
+	c = append(c, 0x60, 0xbb, 0x61, byte(n>>8), byte(n), 0x60, 0x00, 0xa1, 0x00) // LOG1(0,n,0xbb) STOP
+	return c
+}
 
 func codeOuter(inner common.Address) []byte {
 	c := []byte{0x60, 0x07, 0x60, 0x01, 0x55, // SSTORE(1,7)
@@ -42,6 +64,6 @@ func Initcode(runtime []byte) []byte {
 
 // Deployed is a contract the generator believes to exist (confirmed against the state before use).
 type Deployed struct {
-	Kind string // store | revert | log | suicide | outer
+	Kind string // store | revert | log | suicide | outer | blockhash
 	Addr common.Address
 }
